@@ -309,6 +309,8 @@ def run(ctx):
     # K1-class histories are not excluded here: the index clauses hold for them too
     opts2 = H.Opts(weights=WEIGHTS, max_ops=20, avoid_k1=False)
     drive(ctx, cases(opts2), body, max(30, n // 3), salt=2, label="C03 (K1 allowed)")
+    long = H.Opts(weights=WEIGHTS, min_ops=40, max_ops=ctx.n(60, 120))
+    drive(ctx, cases(long), body, ctx.n(10, 200), salt=3, label="C03 long histories")
 
 
 def replay(ctx, case):
